@@ -92,13 +92,46 @@ def load_example(top):
     return files
 
 
+_tests_cache = []
+
+
+def test_programs():
+    """Programs embedded in the repository's own test-suite (compiler/src/tests/*.rs): single-file `eval(r#"..."#)`
+    programs and multi-file EvalEnvironment projects.  -> list of (name, {path: source}, entry)"""
+    import re
+    if _tests_cache:
+        return _tests_cache
+    d = os.path.join(core.REPO, "compiler", "src", "tests")
+    out = []
+    for fn in sorted(os.listdir(d)):
+        if not fn.endswith(".rs"):
+            continue
+        with open(os.path.join(d, fn), encoding="utf-8", errors="replace") as f:
+            text = f.read()
+        for k, block in enumerate(text.split("#[test]")[1:]):
+            m = re.search(r"fn\s+(\w+)", block)
+            name = "%s::%s" % (fn[:-3], m.group(1) if m else k)
+            ev = re.search(r'eval\(\s*r#"(.*?)"#', block, re.S)
+            if ev:
+                out.append((name, {"main.ms": ev.group(1)}, "main.ms"))
+                continue
+            ent = re.search(r'entrypoint\(\s*"([^"]+)",\s*r#"(.*?)"#', block, re.S)
+            if ent:
+                files = {ent.group(1): ent.group(2)}
+                for a in re.finditer(r'\.add\(\s*"([^"]+)",\s*r#"(.*?)"#', block, re.S):
+                    files[a.group(1)] = a.group(2)
+                out.append((name, files, ent.group(1)))
+    _tests_cache.extend(out)
+    return out
+
+
 SLOW_OR_UNSTABLE = {("count", "million.ms"), ("recursion", "main.ms"), ("math", "primes.ms"), ("math", "counter.ms")}
 
 
 def canon(b):
-    """Order-insensitive rendering of output whose map prints depend on the hash seed: the
-    multiset of characters of every line."""
-    return [bytes(sorted(line)) for line in b.split(b"\n")]
+    """Order-insensitive rendering of output that depends on the hash seed (raw map prints, iteration over
+    pairs()): the multiset of lines, each line as the multiset of its characters."""
+    return sorted(bytes(sorted(line)) for line in b.split(b"\n"))
 
 
 # ---------------------------------------------------------------------- plans
@@ -263,6 +296,11 @@ def case_files(case):
         return {case.get("entry", "s.ms"): string_program(case["s"], case["raw"], case["form"])}, case.get("entry", "s.ms")
     if k == "files":
         return dict(case["files"]), case["entry"]
+    if k == "testsrc":
+        for name, files, entry in test_programs():
+            if name == case["name"]:
+                return dict(files), entry
+        raise core.HarnessError("test program %r not found" % case["name"])
     if k == "gen":
         import gens
         files, entry = gens.materialise(case["gen"])
